@@ -8,7 +8,7 @@
 From Coq Require Import List Arith Bool ZArith Ring_theory.
 Import ListNotations.
 Require Import Base.C01_Sums Model.C01_Assembly Proofs.C01_AssemblyProofs Gen.C01Gen Dyn.C01Tie.
-Require Import Model.C01_Trilinear Proofs.C01_TrilinearProofs Model.C01_Params Dyn.C01TriTie.
+Require Import Model.C01_Trilinear Proofs.C01_TrilinearProofs Model.C01_Params Model.C01_FormWrap Dyn.C01TriTie.
 
 Section C01.
   Variable R : Type.
@@ -211,6 +211,26 @@ Theorem C01_oriented_side : forall ori : Z, (ori = 0 \/ ori = 1)%Z ->
    (gen_oriented_normal_row ori) mod 2 = ori /\ gen_plain_row 0 = 0 /\ gen_plain_row 1 = 1 /\ gen_plain_normal_row = 0)%Z.
 Proof. exact gen_oriented_side_spec. Qed.
 
+(* the form-copying wrappers of form.py, regenerated: partial and block keep dtype, nthreads and params and only replace the
+   integrand by the bound / padded one; the decorator call builds the form of the decorated function with the decorator's dtype,
+   nthreads and params; Form(f, ...) and Form(form_obj, ...) take exactly the given attributes (d0, p0 are the defaults of
+   Form.__init__, which none of the wrappers may fall back to) *)
+Theorem C01_form_wrappers : forall (F D P : Type) (d0 : D) (p0 : P),
+  (forall bind (r : formrec F D P), let r' := gen_form_partial d0 p0 bind r in
+     fr_form r' = omap bind (fr_form r) /\ fr_dtype r' = fr_dtype r /\ fr_nthreads r' = fr_nthreads r /\ fr_params r' = fr_params r) /\
+  (forall bind (r : formrec F D P), let r' := gen_form_copy_block d0 p0 bind r in
+     fr_form r' = omap bind (fr_form r) /\ fr_dtype r' = fr_dtype r /\ fr_nthreads r' = fr_nthreads r /\ fr_params r' = fr_params r) /\
+  (forall (r : formrec F D P) f, let r' := gen_form_decorate d0 p0 r f in
+     fr_form r' = Some f /\ fr_dtype r' = fr_dtype r /\ fr_nthreads r' = fr_nthreads r /\ fr_params r' = fr_params r) /\
+  (forall (f : F) d n p, gen_form_init d0 p0 f d n p = mkFr (Some f) d n p) /\
+  (forall (fo : formrec F D P) d n p, gen_form_init_from d0 p0 fo d n p = mkFr (fr_form fo) d n p).
+Proof. exact @gen_form_wrappers_spec. Qed.
+
+(* asm(function, ...): the wrapper class is chosen by the number of arguments of the function *)
+Theorem C01_asm_wrapper_dispatch :
+  gen_asm_wrapper 1 = WFunctional /\ gen_asm_wrapper 2 = WLinearForm /\ gen_asm_wrapper 3 = WBilinearForm /\ gen_asm_wrapper 4 = WTrilinearForm.
+Proof. exact gen_asm_wrapper_spec. Qed.
+
 Print Assumptions C01_coo_bilinear_entries.
 Print Assumptions C01_coo_linear_entries.
 Print Assumptions C01_bilinear_weak_form.
@@ -221,6 +241,8 @@ Print Assumptions C01_functional_value.
 Print Assumptions C01_coo_trilinear_entries.
 Print Assumptions C01_trilinear_weak_form.
 Print Assumptions C01_oriented_side.
+Print Assumptions C01_form_wrappers.
+Print Assumptions C01_asm_wrapper_dispatch.
 Print Assumptions C01_params_enter_identically.
 Print Assumptions C01_normalize_kinds.
 Print Assumptions C01_params_precedence.
